@@ -15,6 +15,14 @@ CHECKS = {
             "compared. Exploration within the stated value alphabet and sizes.",
             "Trusts lxml/json as independent readers and the harness' canonical snapshot (storage.extract_graph).",
             "DESIGN.md §3 C01"),
+    "C02": ("property-based round-trip testing (Hypothesis) of generated sliver trees through graph / dict / JSON, plus "
+            "enumeration of every (element kind x settable property) for set/get/unset",
+            "Generated slivers of all five classes over the full property vocabulary and nesting shapes are written to "
+            "a graph / dict / JSON and rebuilt; every (flavour x element kind x settable property) is enumerated for "
+            "set->get and unset->absent. Exploration; the property table is exhaustive, the values are sampled.",
+            "Trusts the field-wise canonicalisation in engines/slivers.py (checked against each class's "
+            "list_properties(): a setter without a strategy is a harness error).",
+            "DESIGN.md §3 C02"),
     "C03": ("property-based testing (Hypothesis) of encode/decode round trips, fixpoints, unknown-key tolerance, "
             "copy-with-changes purity and finalisation, per codec class",
             "Tens of thousands of generated values per run over 19 codec classes (all fields, scalar/list forms, "
@@ -39,6 +47,14 @@ CHECKS = {
             "lookups. Exploration.",
             "Trusts the ownership/artefact prediction (my reading of the statement) and the serialize+load state copy.",
             "DESIGN.md §3 C08"),
+    "C11": ("property-based testing (Hypothesis): generated slice descriptions built in several creation orders, "
+            "attributes compared with a direct tally of the description and across orders / sources",
+            "Each generated slice (nodes, components, facilities, services incl. external and port-mirror services "
+            "inside/outside the slice) is built in 2-6 permutations; authorization attributes, the PDP request and the "
+            "accounting summary are compared with an independent tally, across orders, and topology vs serialized "
+            "model. Exploration.",
+            "Trusts the tally computed from the case description.",
+            "DESIGN.md §3 C11"),
     "C12": ("property-based testing (Hypothesis): delegation-set round trips and rejection probes, pool regrouping "
             "round trip, and annotation of generated substrate models read back",
             "Generated delegation sets (all formats, label/capacity details), pool families (k pools x defining node x "
@@ -55,6 +71,13 @@ CHECKS = {
             "Trusts the hand-written recognisers (engines/labelgrammar.py), which read the documented patterns "
             "literally; engine-specific regions (Unicode digits, bool-as-int) are only compared differentially.",
             "DESIGN.md §3 C16, Appendix D"),
+    "C17": ("property-based testing (Hypothesis): generated sliver + edit script, expected TopologyDiff computed from "
+            "the script",
+            "Generated node / service / interface slivers and edit scripts of up to 5 edits; added/removed sets, "
+            "modified flags, antisymmetry and operand purity are compared with a reference comparison of the two "
+            "descriptions. Exploration.",
+            "Trusts the reference comparison of descriptions in c17.py.",
+            "DESIGN.md §3 C17"),
     "C18": ("exhaustive enumeration of the request grid and catalogue x argument shapes against a brute-force Pareto "
             "oracle and the catalogue JSON, plus Hypothesis-generated requests",
             "Every (core, ram, disk) request on the grid spanned by the catalogue values +-1 (31 824 requests) and every "
@@ -87,12 +110,39 @@ CHECKS = {
             "Exhaustive only up to the node bound.",
             "Trusts the harness' own BFS / simple-path enumeration (no networkx in the oracle).",
             "DESIGN.md §3 C06"),
+    "C13": ("property-based testing (Hypothesis): generated substrate models with multi-delegation annotations, "
+            "generate_adms output checked clause by clause against the pre-call snapshot",
+            "Generated ARMs (1-2 sites, components, switches, stitch nodes, links; 1-3 delegation ids; single/pooled; "
+            "label-only/capacity-only/both/none) plus the four shipped advertisements; each partition is checked for "
+            "own entries, no foreign entries, sub-model, closure, stitch nodes, source untouched, re-keying. "
+            "Exploration.",
+            "Trusts the independent delegation decoder and canonical snapshot in engines/substrate.py.",
+            "DESIGN.md §3 C13"),
+    "C14": ("stateful property-based testing (Hypothesis): families of delegation models, all merge permutations and "
+            "generated merge/unmerge/snapshot/rollback histories against a reference combined model",
+            "For each generated family (and the shipped advertisements) every merge permutation (<=24), unmerge / "
+            "re-merge of every member and a generated 1-12 step history are executed on the in-memory composition of "
+            "the CBM code and compared after every step with a reference model computed from the source snapshots. "
+            "Exploration.",
+            "Trusts the reference combined-model in c14.py; the harness composes Neo4jCBMGraph's backend-neutral "
+            "methods with the NetworkX backend (no repository change).",
+            "DESIGN.md §3 C14"),
     "C15": ("property-based testing (Hypothesis) against an integer-arithmetic oracle on field dictionaries",
             "Generated-input search: tens of thousands (quick) to millions (thorough) of capacity triples over all 8 "
             "fields, every algebraic law of the statement checked against plain integer arithmetic. Exploration, "
             "not proof: bounded by the sampled values (0..2^62).",
             "Trusts Python int arithmetic and Hypothesis' generators; Capacities fields taken from the class itself.",
-            "DESIGN.md §3 C15"),
+            "DESIGN.md §3 C15"),    "C19": ("property-based testing at the driver boundary: every backend operation executed against a recording "
+            "stand-in driver with adversarial values; captured statements linted by a hand-written Cypher lexer and "
+            "compared metamorphically across value vectors",
+            "91 operations x fixed adversarial vectors are enumerated, plus tens of thousands of generated value "
+            "vectors; every captured (statement, parameters) pair is checked for lexical/structural well-formedness, "
+            "parameter agreement, variable binding and data independence. Structural only (no Cypher grammar, no "
+            "server); exploration.",
+            "Trusts the stand-in driver's plausibility and the hand-written lexer; semantics against a real "
+            "Neo4j/APOC are not observable offline.",
+            "DESIGN.md §3 C19"),
+
 }
 
 NOT_APPLICABLE = {}   # id -> reason
